@@ -527,7 +527,7 @@ impl Prop for C03 {
     type Case = PlanCase;
     const ID: &'static str = "C03";
     const PART: &'static str = "path-edges";
-    const RULE: &'static str = "planner cases as in C01 with valid starts, 60% walls/obstacles thicker than the resolution L but thinner than the step, RRT* radius 1-4 x step, iteration budgets <= 1000. Oracle A: on every path segment the accepted logged validity queries lying on the segment (metric on-segment test) leave no gap > L; oracle B: dense re-check (spacing L/64) of the pure world finds no invalid stretch >= L. Non-trivial = a path with an edge longer than L in a run where >= 1 validity query was rejected.";
+    const RULE: &'static str = "planner cases as in C01 with valid starts, 60% walls/obstacles thicker than the resolution L but thinner than the step, RRT* radius 1-4 x step, iteration budgets <= 1000; 12% of the tree-planner cases first make two calls cut by a real 0.05-2 ms deadline and then the budgeted call on the same tree. Oracle A: on every path segment the accepted logged validity queries lying on the segment (metric on-segment test) leave no gap > L; oracle B: dense re-check (spacing L/64) of the pure world finds no invalid stretch >= L. Non-trivial = a path with an edge longer than L in a run where >= 1 validity query was rejected.";
     fn random_cases(tier: Tier) -> usize {
         tier.pick(12_000, 100_000)
     }
@@ -542,7 +542,21 @@ impl Prop for C03 {
             p_raw_space: 0.3,
             ..Default::default()
         };
-        gen_plan_case(ch, &prof)
+        let mut c = gen_plan_case(ch, &prof);
+        if c.planner != PlannerTag::PRM && c.problems.len() == 1 && ch.prob(0.12) {
+            // a call cut short by a real deadline (0.05-2 ms), then the budgeted call on the
+            // same tree: an edge accepted because its check was interrupted stays in the tree
+            let budget = c.ops.iter().find_map(|o| if let Op::Solve { budget } = o { Some(*budget) } else { None }).unwrap_or(300);
+            c.ops = vec![
+                Op::Setup(0),
+                Op::SolveTimed { us: ch.int(50, 2000) as u64 },
+                Op::SolveTimed { us: ch.int(50, 2000) as u64 },
+                Op::Solve { budget },
+            ];
+            c.problems[0].goal.radius *= 0.3;
+            c.query_cap = usize::MAX;
+        }
+        c
     }
     fn check(case: &PlanCase, ctx: &mut Ctx) {
         run_and(case, ctx, c03_oracle);
@@ -719,7 +733,37 @@ impl Prop for C04 {
             p_outside_target: 0.0,
             ..Default::default()
         };
-        gen_plan_case(ch, &prof)
+        let mut c = gen_plan_case(ch, &prof);
+        let offs = c.space.offsets();
+        if c.space2.is_none() && c.problems.len() == 1 && ch.prob(0.04) {
+            // an exact half turn inside a half-circle interval: both arcs are shortest, one of
+            // them lies inside the interval
+            for (i, comp) in c.space.comps.iter_mut().enumerate() {
+                if let Comp::SO2 { bounds } = comp {
+                    let h = std::f64::consts::FRAC_PI_2;
+                    *bounds = Some((-h, h));
+                    let (a, b) = if ch.prob(0.5) { (-h, h) } else { (h, -h) };
+                    c.problems[0].start[offs[i]] = a;
+                    for t in c.problems[0].goal.targets.iter_mut() {
+                        t[offs[i]] = b;
+                    }
+                    c.goal_bias = ch.pick(&[0.3, 1.0]);
+                    break;
+                }
+            }
+        } else if c.space2.is_none() && ch.prob(0.04) {
+            // a box coordinate bounded on one side only: uniform sampling reports an error there,
+            // goal samples drive the tree, and whatever is sampled must respect the finite bound
+            for comp in c.space.comps.iter_mut() {
+                if let Comp::RV { bounds: Some(b), .. } = comp {
+                    let k = ch.below(b.len());
+                    b[k] = if ch.prob(0.5) { (f64::NEG_INFINITY, b[k].1) } else { (b[k].0, f64::INFINITY) };
+                    c.goal_bias = ch.pick(&[0.3, 0.6, 1.0]);
+                    break;
+                }
+            }
+        }
+        c
     }
     fn check(case: &PlanCase, ctx: &mut Ctx) {
         run_and(case, ctx, c04_oracle);
